@@ -8,8 +8,8 @@ CHECKS = {
    text="Hostile bytes on each of the four input channels (workflow, local action metadata, local reusable workflow, actionlint.yaml): the complete YAML kind x tag x position matrix over maximal templates (about 1e5 cases), raw YAML snippets, seeded byte mutations of the repository corpus, expression fuzz at 32 positions, hostile strings at 32 string-parsing positions and scripts up to 300 KB handed to a fake external tool, each through LintFile/LintFiles/Lint or the real CLI, 10% repeated under the race build. Verdict per case: no panic, no crash, exit status in {0,1,3}, finishes. Exploration: says nothing about inputs the generators do not produce.",
    note="Trusted: the journal attribution of a crash to the case being run; hang verdicts are CPU-budget (RLIMIT_CPU 120 s alone) or quiescence (no CPU progress, all threads asleep in the worker and all descendants), never wall-clock."),
  "C02": dict(level="exploration", design="§4 C02",
-   technique="metamorphic repeat monitor: N fresh Linters per input in one process (map order re-randomised) and the real CLI under GOMAXPROCS 1/2/4/16 with seeded hook delays; outputs must be byte-identical",
-   text="Hand-designed tie sites (>=2 diagnostics at one position or several candidates for a 'first' choice), fuzzed workflows, the repository's err/examples/ok/projects corpus and generated multi-file projects are linted 30 (quick) / 200 (thorough) times each; any difference in message, position, kind, order or exit status is a violation classified by site. An order-dependent site with a 2-entry map survives 30 repetitions with probability < 2%.",
+   technique="metamorphic repeat monitor: N runs per input in one process (map order re-randomised; first half on fresh Linters, second half on one reused Linter) and the real CLI under GOMAXPROCS 1/2/4/16 with seeded hook delays; outputs must be byte-identical",
+   text="Hand-designed tie sites (>=2 diagnostics at one position or several candidates for a 'first' choice), fuzzed workflows, flow mappings whose entries are made to meet at one reported position by non-ASCII text (false position ties over 20 map-held holders), the repository's err/examples/ok/projects corpus and generated multi-file projects are linted 30 (quick) / 200 (thorough) times each; any difference in message, position, kind, order or exit status is a violation classified by site. An order-dependent site with a 2-entry map survives 30 repetitions with probability < 2%.",
    note="Pure self-comparison, no expected output. One open known finding (which file reports the defect of a callee shared by several files depends on goroutine scheduling)."),
  "C03": dict(level="exploration", design="§4 C03",
    technique="mutation monitor over YAML scalar positions with a located-diagnostic oracle on the real linter",
@@ -41,7 +41,7 @@ CHECKS = {
    note="Workflow-level diagnostics, local actions/reusable workflows (reported once per run by design) and the bash/sh distinction are outside the compared domain."),
  "C10": dict(level="exploration", design="§4 C10",
    technique="Go race detector over multi-file workloads + isolation (alone vs. together) metamorphic monitor with seeded hook delays + table/config fingerprint invariants + file-vs-AST interface comparison",
-   text="Generated layouts (one repo, two repos, prefix-named siblings, nested repositories, loose files, many files) whose workflows depend on their own repository's config, local action and reusable workflow and produce diagnostics built from shared tables. Every file is linted alone, then together in subsets / argument orders under GOMAXPROCS 1/2/4/16 with seeded delays at hook points (check start, cache writes); per-file diagnostics must be equal. Built-in table and shared *Config fingerprints are compared before/after; a third of the cases run in the -race build and every report touching actionlint frames is a violation; both cache-write interleavings must have been observed. Exploration of schedules, not enumeration.",
+   text="Generated layouts (one repo, two repos, prefix-named siblings, nested repositories, loose files, many files, cwd inside the repository; .git as directory or file, callee and action metadata optionally behind symbolic links) whose workflows depend on their own repository's config, local action and reusable workflow and produce diagnostics built from shared tables. Every file is linted alone, then together in subsets / argument orders under GOMAXPROCS 1/2/4/16 with seeded delays at hook points (check start, cache writes); per-file diagnostics must be equal; per repository a clean probe (only correct uses of its own label, variable, action, workflow) must have no diagnostic and a dirty probe must get exactly the expected ones, which decides attribution absolutely. Built-in table and shared *Config fingerprints are compared before/after; a third of the cases run in the -race build and every report touching actionlint frames is a violation; both cache-write interleavings must have been observed. Exploration of schedules, not enumeration.",
    note="Callees are well-formed as the statement requires. The race detector only sees races in executed interleavings. Fingerprints are taken at quiescent points."),
  "C11": dict(level="exploration", design="§4 C11",
    technique="reference-model monitor: independent untrusted-path evaluator over model-generated expressions vs. the real linter's untrusted-input diagnostics",
@@ -74,7 +74,7 @@ CHECKS = {
  "C18": dict(level="exploration", design="§4 C18",
    technique="reference-model monitor over exhaustively enumerated needs graphs (runtime oracle on the real linter)",
    text="Every digraph on <=4 jobs is rendered to a workflow and linted by the real Linter; all 2^25 graphs on 5 jobs are pushed through the rule's visitor API in the thorough tier. An independent cyclicity decision and a walk validator over the generated edge relation judge every run; dangling and duplicate references and random graphs up to 40 jobs are sampled. Exhaustive up to the bound, sampled above it.",
-   note="Trusted: the harness' own graph renderer and cyclicity reference (60 lines). Termination is observed as bounded progress: a case exceeding 90 s CPU when re-run alone is a hang."),
+   note="Trusted: the harness' own graph renderer and cyclicity reference (60 lines). Termination is observed as bounded progress: 40-64 job graphs with a dense acyclic part (complete ladders, 2^(n-2) paths) are linted by the CLI in a child under RLIMIT_CPU 60 s (CPU time, not wall clock); the unchanged tree needs milliseconds."),
  "C19": dict(level="exploration", design="§4 C19",
    technique="reference-model + metamorphic permutation monitor on the real linter's matrix diagnostics",
    text="Every ordered pair of 32 curated values as a row and as (candidate, filter), every ordered triple as (row value, include value, exclude filter) (32768 workflows, exhaustive), matrices made only of expressions, and 2000 (quick) / 100000 (thorough) random matrices with planted duplicates, near variants and every class of exclude entry, each written in 6 further permutations of values, keys and mapping members. Duplicates must be exactly the values structurally equal to an earlier one; exclude verdicts must follow subset/element-wise/equality matching; verdicts are invariant under permutation; expression-built rows and entries are never reported.",
